@@ -222,6 +222,13 @@ ZOO = [
      {"key": "C", "meter": [4, 4], "entries": [_e("1", [["C#", 4]], "note")]},
      {"key": "C", "meter": [4, 4], "entries": [_e("1", [["D", 4]], "note")]},
      {"key": "C", "meter": [4, 4], "entries": [_e("1", [["Eb", 4]], "note")]}],
+    # 9: chords that double a name in several octaves, low enough to cross octave lines downwards
+    [{"key": "C", "meter": [4, 4], "entries": [_e("2", [["C", 3], ["G", 3], ["C", 4], ["E", 4]], "nc"),
+                                                _e("4", [["A", 2], ["A", 3], ["A", 4]], "nc"),
+                                                _e("4", [["B", 3], ["D", 4], ["B", 4], ["D", 5]], "nc")]}],
+    # 10: a tuned track (standard guitar) filled by from_chords: chords come out as fingerings that use open strings
+    [{"key": "C", "meter": [4, 4], "entries": [], "from_chords": ["E", "A", "Em", "E"], "tuning": ["Guitar", "Standard tuning"]},
+     {"key": "C", "meter": [4, 4], "entries": []}, {"key": "C", "meter": [4, 4], "entries": []}, {"key": "C", "meter": [4, 4], "entries": []}],
     # 8: built with Track.from_chords from a sheet that repeats its chord symbols (every occurrence is its own chord)
     [{"key": "C", "meter": [4, 4], "entries": [_e("1", [["C", 4], ["E", 4], ["G", 4]], "nc")], "from_chords": ["C", "Am", "C", "Am"]},
      {"key": "C", "meter": [4, 4], "entries": [_e("1", [["A", 4], ["C", 5], ["E", 5]], "nc")]},
@@ -270,8 +277,20 @@ def build(desc):
     t = Track()
     model = []
     via_chords = bool(desc) and "from_chords" in desc[0]
+    tuned = via_chords and "tuning" in desc[0]
+    if tuned:
+        # a track with a string tuning: from_chords turns every chord into a fingering (a container of the notes the
+        # strings sound, open strings included); what those notes are is the fingering's business -- the model is
+        # read off the freshly built track, the operations afterwards are what is checked
+        import mingus.extra.tunings as _tun
+        t.set_tuning(_tun.get_tuning(desc[0]["tuning"][0], desc[0]["tuning"][1]))
     if via_chords:
         t.from_chords(list(desc[0]["from_chords"]), 1)
+    if tuned:
+        snap = snapshot(t)
+        if len(snap) != len(desc) or any(len(bar) != 1 or not bar[0][2] for bar in snap):
+            raise engine.HarnessError("tuned from_chords track has an unexpected shape: %r" % (snap,))
+        return t, [[[[nm[0], R.pitch_number(nm, o)] for (nm, o) in e[2]] for e in bar] for bar in snap]
     for bd in desc:
         b = Bar(bd["key"], tuple(bd["meter"]))
         mb = []
@@ -649,7 +668,7 @@ def explore(ctx):
         depth = ctx.pick(3, 4)
         aset = ctx.pick("narrow", "narrow")
         # quick: the chord-only and the tuplet-value track (many notes, nothing structurally new) go one level less deep
-        depths = {i: (depth - 1 if (ctx.quick and i in (1, 3, 6, 7, 8)) else depth) for i in range(len(ZOO))}
+        depths = {i: (depth - 1 if (ctx.quick and i in (1, 3, 6, 7, 8, 9, 10)) else depth) for i in range(len(ZOO))}
         ctx.bound("history_depth", {str(i): d for i, d in depths.items()})
         ctx.bound("history_actions", {"set": aset, "targets": {str(i): action_targets(i, aset) for i in range(len(ZOO))}, "ops": bfs_ops()})
         for i in range(len(ZOO)):
